@@ -363,18 +363,17 @@ def guarded_by_bool(F, P, f, bb, pred, value):
     return out
 
 
-def sends_cancel_id(F, P, f, bb, t):
-    """If the call t (in f at bb) ends up sending an id on an mpsc::UnboundedSender<u64> (directly or via
-    a local helper), returns the list of id terms sent; else []."""
-    out = []
+def sends_cancel_id(F, P, f, bb, t, depth=3):
+    """If the call t (in f at bb) ends up sending an id on an mpsc::UnboundedSender<u64> (directly or via local helpers, up to `depth` levels),
+    returns the list of id terms sent, expressed in f's terms; else []."""
     if callee_is(t, 'mpsc::UnboundedSender::send'):
         return [P.operand(f, t['args'][1], at=bb)]
+    out = []
     c = F.callee_fn(t)
-    if c is not None:
+    if c is not None and depth > 0 and not c.coroutine:
+        args = [P.operand(f, a, at=bb) for a in t['args']]
         for b2, t2 in c.calls():
-            if callee_is(t2, 'mpsc::UnboundedSender::send'):
-                term = P.operand(c, t2['args'][1], at=b2)
-                args = [P.operand(f, a, at=bb) for a in t['args']]
+            for term in sends_cancel_id(F, P, c, b2, t2, depth - 1):
                 out.append(P.subst(term, c.id, args))
     return out
 
@@ -530,29 +529,51 @@ def sink_delegation(ctx, tag, types):
 
 
 def cancel_always_enqueues(ctx, tag):
-    """RequestCancellation (used by the client's call guard and by the server's response guard from their Drop impls): every method that queues an id
-    does so on every path, with its id parameter, on an unbounded queue — a request to cancel is never dropped on the floor."""
+    """RequestCancellation (used by the client's call guard and by the server's response guard from their Drop impls): every entry point that queues an id
+    does so on every path, with its id parameter, on an unbounded queue — a request to cancel is never dropped on the floor.  The send may sit in a
+    private helper of the type (e.g. `cancel` = `let _ = self.try_cancel(id)`)."""
     F, P, R = ctx.F, ctx.P, ctx.run
     ms = [f for f in F.fns.values() if f.impl_of and f.impl_of.get('self_head') and path_matches(f.impl_of['self_head'], 'cancellations::RequestCancellation')
           and not F.is_derived(f) and f.kind == 'AssocFn']
-    senders = []
-    for m in ms:
-        for g in F.with_descendants(m):
-            for bb, t in g.calls():
-                if callee_is(t, 'mpsc::UnboundedSender::send', 'mpsc::Sender::try_send', 'mpsc::Sender::send', 'mpsc::Sender::blocking_send'):
-                    senders.append((m, g, bb, t))
-    R.ob(tag, ('RequestCancellation', 'one queueing method'), len(senders) == 1 and senders[0][1].id == senders[0][0].id,
-         'cancellation ids are queued at one site', [g.loc(t) for _, g, _, t in senders])
-    for m, g, bb, t in senders:
-        if g.id != m.id:
+    ids = {m.id for m in ms}
+
+    def always_sends(m, depth=3):
+        """-> (ok, unbounded, param index whose value is sent) for method m"""
+        sites = []
+        for bb, t in m.calls():
+            if callee_is(t, 'mpsc::UnboundedSender::send', 'mpsc::Sender::try_send', 'mpsc::Sender::send', 'mpsc::Sender::blocking_send'):
+                idr = P.root(P.operand(m, t['args'][1], at=bb))
+                k = {r[2] for r, p in idr if r[0] == 'param' and r[1] == m.id and not norm_path(p)}
+                sites.append((bb, callee_is(t, 'mpsc::UnboundedSender::send'), k.pop() if len(k) == 1 and len(idr) == len([1 for r, p in idr if r[0] == 'param']) else None))
+            else:
+                h = F.callee_fn(t)
+                if h is not None and h.id in ids and h.id != m.id and depth > 0:
+                    okh, unbh, kh = always_sends(h, depth - 1)
+                    if okh is not None:
+                        k = None
+                        if kh is not None and kh - 1 < len(t['args']):
+                            idr = P.root(P.operand(m, t['args'][kh - 1], at=bb))
+                            ks = {r[2] for r, p in idr if r[0] == 'param' and r[1] == m.id and not norm_path(p)}
+                            k = ks.pop() if len(ks) == 1 else None
+                        sites.append((bb, unbh and okh, k))
+        if not sites:
+            return None, False, None
+        every = cfg.all_paths_pass(m, 0, cfg.exits(m), {b for b, _, _ in sites})
+        ks = {k for _, _, k in sites}
+        return every, all(u for _, u, _ in sites), (ks.pop() if len(ks) == 1 else None)
+
+    entries = [m for m in ms if (m.vis or '').startswith('Public') or 'DefId(0:0 ~' in (m.vis or '')]
+    n = 0
+    for m in entries:
+        every, unb, k = always_sends(m)
+        if every is None:
             continue
-        unb = callee_is(t, 'mpsc::UnboundedSender::send')
-        every = cfg.all_paths_pass(m, 0, cfg.exits(m), {bb})
-        idr = P.root(P.operand(m, t['args'][1], at=bb))
-        own = bool(idr) and all(r[0] == 'param' and r[1] == m.id and not norm_path(p) for r, p in idr)
-        R.ob(tag, ('RequestCancellation::' + m.npath.split('::')[-1], 'queues the id unconditionally'), unb and every and own,
+        n += 1
+        R.ob(tag, ('RequestCancellation::' + m.npath.split('::')[-1], 'queues the id unconditionally'), bool(every) and unb and k is not None,
              'a requested cancellation is always queued: the id parameter is sent on an unbounded queue on every path (the callers are Drop impls and cannot retry)',
-             [m.loc(t)], 'unbounded queue: %s; on every path: %s; id is the parameter: %s' % (unb, every, own))
+             [m.loc(m.d)], 'unbounded queue: %s; on every path: %s; id is the parameter: %s' % (unb, every, k is not None))
+    R.ob(tag, ('RequestCancellation', 'one queueing method'), n >= 1, 'the cancellation handle has an entry point that queues ids', [m.loc(m.d) for m in entries][:2])
+
 
 
 def returns_at_most(F, P, g):
